@@ -202,7 +202,7 @@ def gen_tu(D, E, index, raw=False, skip=()):
         lines.append(text)
         index[sum(l.count("\n") + 1 for l in lines)] = (fam, name)
     for op in owning.ops(D):
-        if op["name"] in ("dtor", "sdtor"):
+        if op["name"] in ("dtor", "sdtor") or op.get("only") == "ctl":
             continue
         add("W11.own", "%s  [%s]" % (op["body"].strip(), op["name"]), "void o_%s(%s) { %s }" % (op["name"], adapt(op["params"]), adapt(op["body"])))
     for op in viewops.OPS:
